@@ -335,3 +335,24 @@ prop(
     essential=dict(quick=["two-or-more-sources", "closed-or-not-a-pipe-stream", "reaped-child-among-sources", "empty-pollable-set", "waiting-poll", "probe-performed", "null-source"]),
     assumptions=["a full stdin pipe is produced by writing exactly the 64 KiB capacity in page-sized writes", "processes have no deadline here (C08 covers deadline events)"],
 )
+
+prop(
+    "C01",
+    title="Exit status is reported exactly, stays stable, and the child is reaped once",
+    level="exploration",
+    engine="vtime",
+    campaigns=[dict(bin="C01", sweep=True, random=dict(quick=4000, thorough=80000))],
+    level_text=("Deterministic sweep of all 256 exit codes and all 23 terminating signals (1..31 minus CHLD, CONT, STOP, TSTP, TTIN, TTOU, URG, WINCH; core dumps disabled in the child) with "
+                "wait-only histories, plus random histories of 1-12 (thorough 30) operations from {wait(0|finite|INFINITE|DEADLINE), stop(3 actions), terminate, kill} placed before and after the "
+                "ending on a virtual clock, children that die on or ignore SIGTERM, optional deadline. The ending is commanded by the harness, so the expected value is independent of the library. "
+                "Oracle: exact status; no status while the child runs (and no blocking waitpid on a running child); every later wait/stop returns the same value with zero waitpid/poll/kill calls and "
+                "zero virtual time; terminate/kill after the status send nothing; exactly one successful waitpid over the whole history; no zombie; the shim rejects any second reap."),
+    level_note="Statuses are what the harness commanded or what the library's own signal must cause (143/137); Windows exit-code mapping is not reachable.",
+    technique="exhaustive sweep of codes and signals + model-based property testing of call histories on the virtual-time engine (rapidcheck tape)",
+    rule=("sweep index -> exit code 0..255 / terminating signal; tape -> time of the ending, SIGTERM behaviour, deadline, operations with gaps and timeouts. Non-trivial: a wait/stop/terminate/kill issued after a "
+          "status was already returned, or an ending other than exit(0). Distinct: hash of ending and per-operation (kind, state) sequence."),
+    essential=dict(quick=["sweep-exit-code", "sweep-signal", "call-after-status", "nonzero-status", "ended-by-own-signal", "ended-by-library-signal"]),
+    exhaustive=dict(quick=True, thorough=True),
+    exhaustive_scope="all 256 exit codes and all 23 terminating signals (endings); histories are sampled",
+    assumptions=["an unbounded wait for a child that never ends is replaced by a bounded one (C07/C15 cover unbounded waits)", "stop actions are in range here (out-of-range is C07/C14)"],
+)
